@@ -43,26 +43,37 @@ RULE = (
     "generated definitions written to REAL source files in the case's cwd and imported from there (inspect/ast "
     "scraping runs for real): functions with 0-5 positional-or-keyword parameters, defaults on a suffix, annotations "
     "(none, int, str, bool, list, None, int | None, typing.Union, typing.Optional), 0-4 returned values (variables, "
-    "parameters, inline expressions, one tuple variable), declared vs scraped labels, with/without validation, "
-    "with/without `from __future__ import annotations`, five creation APIs; transformers of size 0-5; dataclass "
-    "layouts (required / default / default_factory, plain class or real @dataclass); each definition is exercised by "
-    "several fresh instances, each with a positional/keyword split at construction and another at call (thorough: "
-    "every valid split pair for arity <= 4), plus clashes, unknown keys, too many positionals, missing arguments and "
-    "a repeated call; non-trivial = at least one run returned a value"
+    "parameters, inline calls, one tuple variable, a 1-tuple), return statement on one line / parenthesised over "
+    "several lines with a call split in two / twice in the body / bare / `return None` / absent, declared vs scraped "
+    "labels (fitting, too few, too many, repeated, for a function returning nothing), with/without validation, return "
+    "annotations (fitting, absent, wrong tuple length), a parameter named like a Node.__init__ keyword, with/without "
+    "`from __future__ import annotations`, five creation APIs; transformers of size 0-5; dataclass layouts (required / "
+    "default / default_factory, plain class or real @dataclass or a class used before); each definition is exercised "
+    "by several fresh instances, each with a positional/keyword split at construction and another at call (all valid "
+    "split pairs for arity <= 3 in quick, <= 4 in thorough), plus clashes, unknown keys, too many positionals, missing "
+    "arguments and a repeated call; non-trivial = at least one run returned a value"
 )
 TRUSTED = [
-    "model FuncWrap transcribes HasIO.set_input_values, StaticNode._setup_node, the readiness gate, "
-    "Function.process_run_result/_outputs_to_run_return and the transformer bodies for data values (validated on the "
-    "explored cases only)",
-    "NOT in Lean, differential only: scraping of output labels from the source text, preview_io(), annotations -> "
-    "type hints (Python's inspect/ast are the oracle); the model is told the number of outputs by the definition",
+    "model FuncWrap transcribes ScrapesIO._build_inputs_preview/_build_outputs_preview/_validate*, "
+    "ParseOutput.get_parsed_output, Function._build_outputs_preview, StaticNode._setup_node, HasIO.set_input_values, the "
+    "readiness gate, Function.process_run_result/_outputs_to_run_return and the transformer/dataclass bodies for data "
+    "values (validated on the explored cases only)",
+    "what python's inspect/ast/typing make of the source TEXT (parameter list, evaluated annotations, the return "
+    "statements as an ast.Tuple of element texts or one expression text, typing.get_args of the return annotation) is "
+    "an INPUT of the model, computed by the harness from the generator's own description of the source it wrote, "
+    "independently of the library; that the library reads the same off the real file is checked differentially only",
     "the reference binding in the oracle is Python's own inspect.Signature.bind_partial + calling the bare twin function",
+    "which of the two Cfg variants (dataclass re-cast, cached transformer return) the tree shows is decided by two fixed "
+    "probes of the tree, not by the case under test",
 ]
 ASSUMPTIONS = [
     "parameters are positional-or-keyword (no *args/**kwargs/positional-only/keyword-only); supplied values and "
-    "defaults conform to the annotations and are never NOT_DATA",
+    "defaults conform to the annotations and are never NOT_DATA; the source of the function is available",
     "values are immutable; the wrapped function is deterministic",
     "pandas.DataFrame abstracted to its ordered columns (to_dict('list'))",
+    "the oracle makes no demand on definitions outside the statement (reserved parameter names, repeated labels, a "
+    "second return statement with scraping/validation, a return annotation whose tuple length does not fit) nor on "
+    "output hints of functions without return annotation; these are compared with the model only",
 ]
 
 INIT_KW = {"label", "parent", "delete_existing_savefiles", "autoload", "autorun", "checkpoint", "self", "args", "kwargs"}
@@ -347,7 +358,11 @@ def gen_fn_case(rng, tier, idx, n=None, exhaustive=False):
             elif nout == 1:
                 ret_ann = "tuple"
     elif ra < 0.43 and nvals >= 2:
-        ret_ann = rng.choice(["tuple[int]", "None", "tuple", "tuple[" + ", ".join(["int"] * (nvals + 1)) + "]"])  # does not fit
+        # an annotation whose number of tuple hints does not fit the number of outputs: the definition is refused
+        nout = len(declared) if declared is not None else nout_scraped
+        cand = [c for c, k in (("tuple[int]", 1), ("None", 0), ("tuple", 0), ("tuple[" + ", ".join(["int"] * (nvals + 1)) + "]", nvals + 1))
+                if nout >= 2 and k != nout]
+        ret_ann = rng.choice(cand) if cand else None
     if declared is not None and len(set(declared)) != len(declared):
         ret_ann = None  # repeated labels collapse (python dict); with hints the stored object would not fit them
     api = rng.choice(["dec", "dec_call", "dec_labels", "dec_labels", "to_fn", "fn_node"])
